@@ -18,6 +18,7 @@ import (
 	"github.com/jech/storrent/peer"
 	"github.com/jech/storrent/protocol"
 	"github.com/jech/storrent/tor"
+	"github.com/jech/storrent/tor/piece"
 
 	"verif/ref"
 	"verif/sim"
@@ -209,6 +210,47 @@ func oneCase(rt *rapid.T, opName, stop string) (fail string, labels []string) {
 	}
 	sim.Settle()
 
+	// optionally a piece is being hashed while the torrent stops: deletion then
+	// has to wait for the hasher before it can give the memory back
+	hashing := -1
+	hashRelease := make(chan struct{})
+	if rapid.Bool().Draw(rt, "hashInFlight") && stop != "already-dead" { // (that stop point waits for deletion synchronously)
+		for i := 1; i < x.N-1; i++ {
+			if !t.Pieces.Complete(uint32(i)) {
+				hashing = i
+				break
+			}
+		}
+	}
+	if hashing >= 0 {
+		for c := 0; c < x.Blocks(hashing); c++ {
+			t.Pieces.AddData(uint32(hashing), uint32(c*16384), x.Data(hashing, int64(c)*16384, 16384), ^uint32(0))
+		}
+		ps := &t.Pieces
+		_ = ps
+		piece.VerifYieldHook = func(point string, idx int) {
+			if point == "Finalise.beforeHash" && idx == hashing {
+				<-hashRelease
+			}
+		}
+		go t.Pieces.Finalise(uint32(hashing), hash.Hash(x.Hashes[hashing]))
+		sim.Settle()
+		piece.VerifYieldHook = nil
+		sim.Cleanup(func() {
+			select {
+			case <-hashRelease:
+			default:
+				close(hashRelease)
+			}
+		})
+	}
+	// what is allocated at the very moment deletion is reported complete
+	atDeleted := make(chan int64, 1)
+	go func() {
+		<-t.Deleted
+		atDeleted <- alloc.Bytes() - base
+	}()
+
 	arg := rapid.IntRange(0, 1000).Draw(rt, "arg")
 	fillers := rapid.SampledFrom([]int{0, 0, 3, 100}).Draw(rt, "fillers")
 	done := make(chan opResult, 2)
@@ -290,7 +332,21 @@ func oneCase(rt *rapid.T, opName, stop string) (fail string, labels []string) {
 	}
 	// deletion closes peer connections itself, not the peers' five-minute
 	// idle time-out: look after 30 s
-	time.Sleep(30 * time.Second)
+	time.Sleep(15 * time.Second)
+	sim.Settle()
+	if hashing >= 0 {
+		select {
+		case left := <-atDeleted:
+			atDeleted <- left
+			if left != 0 {
+				return fmt.Sprintf("operation %s, stop point %s: deletion was reported complete while a piece was still being hashed and %d bytes of the torrent's memory were still allocated", opName, stop, left), nil
+			}
+		default:
+		}
+		close(hashRelease)
+		labels = append(labels, "hash-in-flight-during-deletion")
+	}
+	time.Sleep(15 * time.Second)
 	sim.Settle()
 	select {
 	case <-t.Deleted:
@@ -356,6 +412,14 @@ func oneCase(rt *rapid.T, opName, stop string) (fail string, labels []string) {
 			return fmt.Sprintf("%s: a reader still reads after deletion: Read returned (%d, nil), then (%d, %v)", describe, n, n2, err2), nil
 		}
 		rd.Close()
+	}
+	select {
+	case left := <-atDeleted:
+		if left != 0 {
+			return fmt.Sprintf("%s: %d bytes of piece memory were still allocated at the moment deletion was reported complete", describe, left), nil
+		}
+	default:
+		return describe + ": deletion never completed", nil
 	}
 	if got := alloc.Bytes(); got != base {
 		return fmt.Sprintf("%s: %d bytes of piece memory remain allocated after deletion", describe, got-base), nil
